@@ -23,6 +23,7 @@ structure PConn where
   mask    : String
   mem     : State                      -- announcement log (Spec.C19)
   assoc   : List (String × String × String × Nat × String) := []   -- per serial: job, diffTxt, xn1, size, mask
+  tmpls   : List String := []          -- per serial: the block template announced (input of the proof of work)
 deriving Repr
 
 structure PoolC where
@@ -74,9 +75,10 @@ def lastLive (m : Mon) (pool : String) : Option PConn :=
 def kvOf (l : List String) (k : String) : String := kvGet l k
 
 /-- announce a job on a connection with the pool's current association -/
-def announce (m : Mon) (c : PConn) (job : String) (clean : Bool) : PConn :=
+def announce (m : Mon) (c : PConn) (job : String) (clean : Bool) (tmpl : String := "t0") : PConn :=
   { c with mem := notify c.mem job clean m.now,
-           assoc := c.assoc ++ [(job, c.diffTxt, c.xn1, c.xn2size, c.mask)] }
+           assoc := c.assoc ++ [(job, c.diffTxt, c.xn1, c.xn2size, c.mask)],
+           tmpls := c.tmpls ++ [tmpl] }
 
 def newConn (m : Mon) (p : PoolC) (idx : Nat) : PConn :=
   let c : PConn := { pool := p.name, idx := idx, diffTxt := p.diffTxt, xn1 := p.en1, xn2size := p.en2size,
@@ -145,20 +147,25 @@ def walkMiner (m : Mon) (c : Option PConn) (lines : List (List String)) : Mon ×
       (m, acc.2 ++ cs)
     | _ => (absorbMiner m [o], acc.2)) (m, [])
 
-def specPow (c : PConn) (serial : Nat) : Bool :=
+/-- does the share meet the difficulty the pool associates with announcement `serial`?  The share's difficulty against
+that announcement's data (template, extranonce1, the connection's mask) is read from the table the harness measured. -/
+def specPow (tbl : List ((String × String × String) × Nat)) (vb : String) (c : PConn) (serial : Nat) : Bool :=
   match c.assoc[serial]? with
-  | some (_, d, _, _, _) => diffUnits d == 0
+  | some (_, d, x, _, _) =>
+    let key := ((c.tmpls[serial]?).getD "t0", tokOf x, if vb = "-" then "-" else tokOf c.mask)
+    decide (diffUnits d ≤ ((tbl.find? (·.1 = key)).map (·.2)).getD 0)
   | none => false
 
 /-- would this connection's job memory honour the share (known, unexpired, not a repeat, meets the
 job's difficulty)?  Returns the updated connection and the verdict. -/
-def specTry (m : Mon) (c : PConn) (job : String) (share : List Nat) : PConn × String × Option Nat :=
+def specTry (tbl : List ((String × String × String) × Nat)) (vb : String) (m : Mon) (c : PConn) (job : String) (share : List Nat) :
+    PConn × String × Option Nat :=
   let r := submit c.mem job share m.now
   let c' := { c with mem := r.1 }
   match r.2 with
   | .notFound => (c', "notfound", none)
   | .duplicate => (c', "dup", none)
-  | .checked n => if specPow c n then (c', "ok", some n) else (c', "low", some n)
+  | .checked n => if specPow tbl vb c n then (c', "ok", some n) else (c', "low", some n)
 
 def hasJobSpec (c : PConn) (job : String) : Bool := (findLatest job (lastN c.mem.window c.mem.log)).isSome
 
@@ -199,11 +206,11 @@ def mon (m : Mon) (op : List String) (outs : List (List String)) : Mon × List S
       let w := walkMiner m1 (some c) (minerLines outs)
       (w.1, w.2)
   | ["advance", t] => ({ m with now := m.now + parseInt t, led := led }, sameLedger)
-  | ["notify", pool, job, _tmpl, clean] =>
+  | ["notify", pool, job, tmpl, clean] =>
     match lastLive m pool with
     | none => ({ m with led := led }, sameLedger)
     | some c =>
-      let c' := announce m c job (clean = "1")
+      let c' := announce m c job (clean = "1") tmpl
       let m1 := setConn m c'
       let isAct := m.active = some (c.pool, c.idx)
       let lines := minerLines outs
@@ -281,7 +288,8 @@ def mon (m : Mon) (op : List String) (outs : List (List String)) : Mon × List S
       let relay := if isAct then (if lines = [want] then [] else [s!"C03 set_extranonce of the assigned pool {pool} was not relayed unaltered"])
                    else (if lines.isEmpty then [] else [s!"C03 set_extranonce of the parked pool {pool} reached the miner"])
       ({ absorbMiner (setConn m c') lines with led := led }, relay ++ sameLedger)
-  | ["submit", id, _user, job, en2, nt, no, vb] =>
+  | "submit" :: id :: _user :: job :: en2 :: nt :: no :: vb :: sdRest =>
+    let tbl := parseSd sdRest
     let share := shareKey en2 nt no vb
     let replies := outs.filterMap fun o => match o with
       | "tominer" :: "result" :: r => if kvOf r "id" = id then some (r.getLast?.getD "") else none
@@ -296,7 +304,7 @@ def mon (m : Mon) (op : List String) (outs : List (List String)) : Mon × List S
     match m.active.bind (findConn m) with
     | none => ({ m with led := led }, c02a)
     | some a =>
-      let t1 := specTry m a job share
+      let t1 := specTry tbl vb m a job share
       let m1 := setConn m t1.1
       let others := m1.conns.filter fun c => c.live ∧ ¬ (c.pool = a.pool ∧ c.idx = a.idx) ∧ hasJobSpec c job
       let (m2, owner, amb) : Mon × Option PConn × Bool :=
@@ -304,7 +312,7 @@ def mon (m : Mon) (op : List String) (outs : List (List String)) : Mon × List S
         else if t1.2.1 = "notfound" ∨ t1.2.1 = "low" then
           match others with
           | [] => (m1, none, false)
-          | [c] => let t := specTry m1 c job share
+          | [c] => let t := specTry tbl vb m1 c job share
                    (setConn m1 t.1, if t.2.1 = "ok" then some t.1 else none, false)
           | _ => (m1, none, true)
         else (m1, none, false)
